@@ -111,10 +111,13 @@ def params(spec):
     if isinstance(spec, str):
         out = []
         for part in [p.strip() for p in spec.split(",") if p.strip()]:
+            outname = ""
+            if "=" in part:           # 'file f = custom.bin': explicit output name
+                part, outname = [x.strip() for x in part.split("=", 1)]
             t, n = part.rsplit(" ", 1)
-            out.append({"n": n, "t": parse_type(t.strip())})
+            out.append({"n": n, "t": parse_type(t.strip()), "outname": outname})
         return out
-    return [{"n": n, "t": parse_type(t) if isinstance(t, str) else t} for n, t in spec]
+    return [{"n": n, "t": parse_type(t) if isinstance(t, str) else t, "outname": ""} for n, t in spec]
 
 
 def const(v):
@@ -133,7 +136,12 @@ FSTR = {"k": "fstr"}        # a string holding the path of a file the job wrote
 FSTRUCT = {"k": "fstruct"}
 FMSTRUCT = {"k": "fmstruct"}  # a typed map of two structs {file f; int n}
 FASTRUCT = {"k": "fastruct"}  # an array of two such structs
-FDIR = {"k": "dir"}         # a directory (type path) with two files in it  # a struct {file f; int n}
+FDIR = {"k": "dir"}
+FILES11 = {"k": "files11"}   # an array of eleven files (two-digit names under outs/)
+FMISSING = {"k": "fmissing"}  # names a file the stage never wrote
+FLINK = {"k": "flink"}
+FLINK2 = {"k": "flink2"}     # a chain of relative symbolic links through sub-directories
+FSM = {"k": "fsm"}           # a struct {string label; map m; file f}       # a symbolic link to a file of the stage         # a directory (type path) with two files in it  # a struct {file f; int n}
 CI = {"k": "ci"}
 
 
@@ -218,6 +226,10 @@ def render_value(v, t=None, prog=None):
     raise TypeError(v)
 
 
+def outname_str(p):
+    return (' "" %s' % q(p["outname"])) if p.get("outname") else ""
+
+
 def elem(t):
     if t["a"] > 0:
         return dict(t, a=t["a"] - 1)
@@ -264,14 +276,14 @@ def render(prog, stage_src="vstage", invocation=True, include_call=True, stage_l
     for s in prog["structs"]:
         out.append("struct %s(" % s["name"])
         for f in s["fields"]:
-            out.append("    %s %s," % (type_str(f["t"]), f["n"]))
+            out.append("    %s %s%s," % (type_str(f["t"]), f["n"], outname_str(f)))
         out.append(")\n")
     for st in prog["stages"]:
         out.append("stage %s(" % st["name"])
         for p in st["ins"]:
             out.append("    in  %s %s," % (type_str(p["t"]), p["n"]))
         for p in st["outs"]:
-            out.append("    out %s %s," % (type_str(p["t"]), p["n"]))
+            out.append("    out %s %s%s," % (type_str(p["t"]), p["n"], outname_str(p)))
         out.append("    src %s %s," % (stage_lang, q(stage_src + " " + st["name"])))
         if st["split"]:
             out.append(") split (")
@@ -294,7 +306,7 @@ def render(prog, stage_src="vstage", invocation=True, include_call=True, stage_l
         for p in pl["ins"]:
             out.append("    in  %s %s," % (type_str(p["t"]), p["n"]))
         for p in pl["outs"]:
-            out.append("    out %s %s," % (type_str(p["t"]), p["n"]))
+            out.append("    out %s %s%s," % (type_str(p["t"]), p["n"], outname_str(p)))
         out.append(")\n{")
         for c in pl["calls"]:
             callee = callable_of(prog, c["callee"])
